@@ -249,21 +249,9 @@ def run(chk):
     a1, a2 = red["Mps.evolve_exact"], red["MpDm.evolve_exact"]
     same = sp.simplify(a1[0]["x"] - a2[0]["x"]) == 0 and sp.simplify(a1[0]["shift"] - a2[0]["shift"]) == 0 and sp.simplify(a1[2] - a2[2]) == 0
     chk.ob("evolve-exact-siblings", "siblings agree (x, shift, phase)", same, f"{MPS}::Mps.evolve_exact", {"Mps": [str(a1[0]), str(a1[2])], "MpDm": [str(a2[0]), str(a2[2])]}, "identical")
-    # ---- exact_propagator
-    ep = src.func(MPO, "Mpo.exact_propagator")
-    xs, ss = ep.params()[2], ep.params()[4]
-    sc = [c for c in ast.walk(ep.node) if isinstance(c, ast.Call) and isinstance(c.func, ast.Attribute) and c.func.attr == "scale"]
-    oks = len(sc) == 1 and unparse(sc[0].args[0]).replace(" ", "") in (f"np.exp({ss}*{xs})", f"np.exp({xs}*{ss})")
-    chk.ob("exact-propagator", "shift applied once as exp(shift * x)", oks, ep.where, [unparse(c)[:60] for c in sc], f"mpo.scale(np.exp({ss} * {xs}), inplace=True)", line=ep.node.lineno)
-    body = [unparse(s).replace(" ", "") for s in ast.walk(ep.node) if isinstance(s, ast.Assign) and unparse(s.targets[0]) == "h_mo"]
-    seq_ok = [b for b in body if b in (f"h_mo=np.diag(np.exp({xs}*w))", "h_mo=v.dot(h_mo)", "h_mo=h_mo.dot(v.T)")]
-    chk.ob("exact-propagator", "EX block: V diag(exp(x w)) V^T", len(seq_ok) == 3 and body.index("h_mo=v.dot(h_mo)") < body.index("h_mo=h_mo.dot(v.T)"), ep.where, body[-3:],
-           ["h_mo = np.diag(np.exp(x*w))", "h_mo = v.dot(h_mo)", "h_mo = h_mo.dot(v.T)"], line=ep.node.lineno, detail="exp(xh) = V exp(x w) V^T for h = V w V^T (eigh); V^T first would give the inverse rotation")
-    hm = [b for b in body if "phop" in b]
-    okh = len(hm) == 1 and "phop['b^\\\\daggerb']*ph.omega[0]" in hm[0] and "phop['b^\\\\dagger+b']*ph.term10" in hm[0]
-    chk.ob("exact-propagator", "EX block Hamiltonian = omega_0 b^dagger b + term10 (b^dagger + b)", okh, ep.where, hm, "phop[b^dagger b]*omega[0] + phop[b^dagger + b]*term10", line=ep.node.lineno)
-    gsd = [unparse(s.value).replace(" ", "").replace("\n", "") for s in ast.walk(ep.node) if isinstance(s, ast.Assign) and unparse(s.targets[0]) == "d"]
-    chk.ob("exact-propagator", "GS block: exp(x omega_0 n)", gsd == [f"np.exp({xs}*ph.omega[0]*np.arange(ph_pbond))"], ep.where, gsd, f"np.exp({xs} * ph.omega[0] * np.arange(ph_pbond))", line=ep.node.lineno)
+    # ---- exact_propagator: abstract run in a matrix-expression domain (chain_rules.exact_propagator_rule)
+    from .chain_rules import exact_propagator_rule
+    exact_propagator_rule(chk, src, "exact-propagator")
     # ---- the displaced-oscillator coupling used by the EX block is the model's (shared rule with C16)
     from . import C16
     C16.holstein_rule(chk, src)
